@@ -58,6 +58,9 @@ CHECKS['C06'] = dict(technique='offline mixture-rule checker over recorded API c
 CHECKS['C07'] = dict(technique='reference-model differential monitor (independent exact-rational parser) with metamorphic rewrites, mutation-generated malformed strings and a locale monitor',
              text='Every symbol, ordered pair, grammar-generated formula and its algebraic rewrites is parsed by the library and by an independent recursive-descent model with exact rationals; single-character mutants of valid formulas (all bytes) must be rejected when the statement names their defect class; add_compound_data is compared with the union/weighted-sum model; runs are repeated under C, C.utf8 and a synthetic comma-decimal locale with the locale recorded before and after every call.',
              note='Trusted: xv/oracles/formula_model.py; forms the statement does not rule on (.5, 5., (), overflow) are not judged.', ref='2 C07')
+CHECKS['C19'] = dict(technique='differential runtime monitor: the recorded C request/response stream replayed in the JVM against the pure-Java implementation',
+             text='Seeded samples of the discrete argument space, energies/angles and strings (incl. NULL), formulas, all catalogue indices and crystal functions are executed by the C executor; the same stream is replayed by reflection in a JVM loaded with the data file generated from the same sources: exception iff C error, values within 5e-8 relative, objects field-digest equal; Java numeric constants published under a C macro name must carry the C value.',
+             note='Trusted: JVM 17, stub Complex class; crystal data are rounded in the JVM exactly as the C build stores them (six decimals, single precision) so that the comparison stays tight.', ref='2 C19')
 NOT_APPLICABLE = [
  dict(property_id='C20', reason='Fortran/Pascal/Cython/IDL/SWIG interface files cannot be compiled, loaded or executed in this sandbox (no gfortran, fpc, Cython, swig, IDL), so there is no execution for a runtime monitor to observe; comparing their text is static analysis, a different technique. The executable slices (Java constants, C++ header, exported symbols) are monitored as by-products of C19/C18/C03.'),
 ]
@@ -69,7 +72,7 @@ def main():
     na = list(NOT_APPLICABLE)
     for p in allp:
         if p not in CHECKS and not any(n['property_id'] == p for n in na):
-            na.append(dict(property_id=p, reason='check not yet registered in this revision of the framework (work in progress, see DESIGN.md section 6)'))
+            raise SystemExit('property %s has neither a check nor a not_applicable reason' % p)
     m = dict(version=1, setup_cmd='bin/xv setup',
              hooks=dict(guard='TSCHOONJ_XRAYLIB_VERIF', enable='checks compile /repo/src themselves with -DTSCHOONJ_XRAYLIB_VERIF (xv/build.py); meson builds leave it undefined',
                         baseline_off_cmd='bin/xv baseline-off', source_commits=hooks, add_only=True),
